@@ -417,29 +417,63 @@ Section Screen.
   (* ---------------------------------------------------------------- lines written by the closure of suspend *)
   Lemma writes_inv m : forall ws t g,
     AInv m t g -> target_n (ms_target m) = 0 -> ms_zombie_lines m = 0 ->
-    forallb (fun w => match w with [] => false | _ => true end) ws = true ->
+    (match ws with [] :: _ => t_col t = 0%nat | _ => True end) ->
     AInv m (run_ops Wn Hn t (map TLine ws)) (mkmg (mg_log g ++ ws) (mg_kept g) (mg_live g)).
   Proof using HW HH.
     assert (HWn : (1 <= Wn)%nat) by (unfold Wn; lia).
     assert (HHn : (1 <= Hn)%nat) by (unfold Hn; lia).
     induction ws as [|w ws IH]; intros t g Hinv Hn0 Hz0 Hok.
     - cbn [map]. rewrite run_ops_nil, app_nil_r. destruct g; exact Hinv.
-    - cbn [forallb] in Hok. apply andb_prop in Hok. destruct Hok as [Hw Hok].
-      cbn [map]. rewrite run_ops_cons.
+    - cbn [map]. rewrite run_ops_cons.
       replace (mg_log g ++ w :: ws) with ((mg_log g ++ [w]) ++ ws) by (rewrite <- app_assoc; reflexivity).
-      apply (IH (exec Wn Hn t (TLine w)) (mkmg (mg_log g ++ [w]) (mg_kept g) (mg_live g))); try assumption.
-      destruct Hinv as (tg & Ht & Hal & Hma & Horph & Hmb & L & K & F & Hr & HL & HK & HF & HlF & HlK & Hreach & Hcur).
-      rewrite Ht in Hn0. cbn [target_n] in Hn0. rewrite Hn0, Hz0 in *.
-      destruct F; [|discriminate]. destruct K; [|discriminate]. rewrite !app_nil_r in Hr.
-      destruct (line_spec Wn Hn (pre ++ L) t w HWn HHn Hr) as (Hr' & Hc' & Hre').
-      { left. destruct w; [discriminate | discriminate]. }
-      exists tg. split; [exact Ht|]. split; [exact Hal|]. split; [exact Hma|]. split; [exact Horph|].
-      split; [exact Hmb|]. exists (L ++ chunks Wn w), [], []. cbn [mg_log mg_kept mg_live].
-      rewrite !app_nil_r, Hn0, Hz0.
-      split; [rewrite app_assoc; exact Hr'|].
-      split; [rewrite wrap_app; apply rows_equiv_app; [exact HL|]; unfold wrap; cbn; rewrite app_nil_r; apply rows_equiv_refl|].
-      split; [exact HK|]. split; [exact HF|]. split; [reflexivity|]. split; [reflexivity|]. split; [lia|].
-      split; [intros _; exact Hc' | intros _ Hge; lia].
+      assert (Hstep : AInv m (exec Wn Hn t (TLine w)) (mkmg (mg_log g ++ [w]) (mg_kept g) (mg_live g))
+                      /\ t_col (exec Wn Hn t (TLine w)) = 0%nat).
+      { clear IH.
+        destruct Hinv as (tg & Ht & Hal & Hma & Horph & Hmb & L & K & F & Hr & HL & HK & HF & HlF & HlK & Hreach & Hcur).
+        pose proof Hn0 as Hn0'. rewrite Ht in Hn0'. cbn [target_n] in Hn0'. rewrite Hn0', Hz0 in *.
+        destruct F; [|discriminate]. destruct K; [|discriminate]. rewrite !app_nil_r in Hr.
+        destruct (line_spec Wn Hn (pre ++ L) t w HWn HHn Hr) as (Hr' & Hc' & Hre').
+        { destruct w; [right; exact Hok | left; discriminate]. }
+        split; [|exact Hc'].
+        exists tg. split; [exact Ht|]. split; [exact Hal|]. split; [exact Hma|]. split; [exact Horph|].
+        split; [exact Hmb|]. exists (L ++ chunks Wn w), [], []. cbn [mg_log mg_kept mg_live].
+        rewrite !app_nil_r, Hn0', Hz0.
+        split; [rewrite app_assoc; exact Hr'|].
+        split; [rewrite wrap_app; apply rows_equiv_app; [exact HL|]; unfold wrap; cbn; rewrite app_nil_r; apply rows_equiv_refl|].
+        split; [exact HK|]. split; [exact HF|]. split; [reflexivity|]. split; [reflexivity|]. split; [lia|].
+        split; [intros _; exact Hc' | intros _ Hge; lia]. }
+      destruct Hstep as [Hinv' Hc'].
+      apply (IH (exec Wn Hn t (TLine w)) (mkmg (mg_log g ++ [w]) (mg_kept g) (mg_live g)) Hinv' Hn0 Hz0).
+      destruct ws as [|[|x w2] ws']; [exact I | exact Hc' | exact I].
+  Qed.
+
+  (** after the clear of suspend the cursor is at column 0 whenever [closure_ok] admits an empty
+      first closure line: the clear erased at least one row, or cursor_below was set *)
+  Lemma clear_col m t g c :
+    AInv m t g ->
+    (1 <=? target_n (ms_target m) + ms_zombie_lines m) || target_below (ms_target m) = true ->
+    t_col (run_ops Wn Hn t (snd (fst (fst (ms_clear W H nofaults m c))))) = 0%nat.
+  Proof using HW HH.
+    intros (tg & Ht & Hal & Hma & Horph & Hmb & L & K & F & Hr & HL & HK & HF & HlF & HlK & Hreach & Hcur) Hok.
+    unfold ms_clear. rewrite Ht in *. cbn [target_n target_below] in Hok.
+    set (tg1 := tt_adjust_clear tg (ms_zombie_lines m)).
+    pose proof (term_draw_rows (pre ++ L) (K ++ F) t tg1 [] [] c) as Hd.
+    cbv zeta in Hd. cbn [app] in Hd.
+    destruct Hd as (_ & _ & _ & RT & RB & _ & _ & _ & _ & _ & Hnil).
+    { exact Hal. }
+    { rewrite <- app_assoc. exact Hr. }
+    { unfold tg1. cbn [tt_adjust_clear tt_n]. rewrite app_length. lia. }
+    { unfold tg1. cbn [tt_adjust_clear tt_n]. lia. }
+    { unfold tg1. cbn [tt_adjust_clear tt_n tt_below]. intros Hge.
+      destruct Hcur as [Hc1 Hc2]. destruct (tt_below tg); [apply Hc1; reflexivity | apply Hc2; [reflexivity | lia]]. }
+    { constructor. } { constructor. } { unfold visual_line_count. cbn. lia. }
+    destruct (Hnil eq_refl) as (_ & Hge & Hz).
+    destruct (term_draw W H nofaults tg1 [] c) as [[[tg2 e] c'] ok]. cbn [fst snd] in *.
+    unfold tg1 in Hge, Hz. cbn [tt_adjust_clear tt_n tt_below] in Hge, Hz.
+    destruct (N.eq_dec (tt_n tg + ms_zombie_lines m) 0) as [Hz0|Hnz].
+    - destruct (Hz Hz0) as [_ Ht']. rewrite Ht'. apply (proj1 Hcur).
+      apply orb_prop in Hok. destruct Hok as [Hok|Hok]; [apply N.leb_le in Hok; lia | exact Hok].
+    - apply Hge. lia.
   Qed.
 
   (* ---------------------------------------------------------------- MultiState::suspend *)
@@ -472,7 +506,7 @@ Section Screen.
   Proof using HW HH.
     intros Hinv [Hws Hfit]. cbv zeta. unfold ms_suspend.
     pose proof (clear_inv m t g c Hinv) as Hc. cbv zeta in Hc. unfold fst4 in Hc.
-    destruct (ms_clear W H nofaults m c) as [[[m1 e1] c1] ok1]. cbn [fst snd] in Hc.
+    destruct (ms_clear W H nofaults m c) as [[[m1 e1] c1] ok1] eqn:Ec. cbn [fst snd] in Hc.
     destruct Hc as (Hinv1 & Hn1 & Hz1 & Eor & Eme & Eod & Efr).
     pose proof Hinv1 as (tg1 & Ht1 & _).
     rewrite Ht1 in *. cbn [target_n] in Hn1.
@@ -481,7 +515,10 @@ Section Screen.
     assert (Hinv1' : AInv m1' (run_ops Wn Hn t e1) (mkmg (mg_log g) [] [])).
     { apply (AInv_retarget m1 _ _ tg1 tg1' Hinv1 Ht1); unfold tg1'; cbn; congruence. }
     rewrite emit_each_nofaults.
-    pose proof (writes_inv m1' ws _ _ Hinv1' eq_refl Hz1 Hws) as Hinv2. cbn [mg_log mg_kept mg_live] in Hinv2.
+    assert (Hcol : match ws with [] :: _ => t_col (run_ops Wn Hn t e1) = 0%nat | _ => True end).
+    { destruct ws as [|[|x w] ws']; try exact I. unfold closure_ok in Hws.
+      pose proof (clear_col m t g c Hinv Hws) as Hcc. rewrite Ec in Hcc. exact Hcc. }
+    pose proof (writes_inv m1' ws _ _ Hinv1' eq_refl Hz1 Hcol) as Hinv2. cbn [mg_log mg_kept mg_live] in Hinv2.
     pose proof (draw_inv m1' _ _ true None now (c1 + N.of_nat (length (map TLine ws))) Hinv2 I) as Hd.
     cbv zeta in Hd. unfold fst4 in Hd.
     assert (Hatt : ms_attempt W m1' true None now = true) by reflexivity.
